@@ -3,6 +3,7 @@ import AslModel.Thread
 import AslModel.ThreadEnd
 import AslModel.ThreadTimed
 import AslModel.ThreadRounds
+import Gen.ThreadGen
 /-! Model driver for C13: parallel_for index groups, thread kinds, semaphore ops, and the *acceptor* that
 replays a hook-point trace recorded from the real library on the `Handover` model. -/
 open Driver AslModel.Thread
@@ -51,7 +52,7 @@ def grp3 (n : Nat) : String :=
   let oneRound (acc : Cfg × List Bool) : Cfg × List Bool :=
     let c := run acc.1 (roundSched n)
     (c, (List.range n).map fun i => (acc.2.getD i true) && c.runs i == c.rounds && !c.early)
-  let r := (List.range 3).foldl (fun acc _ => oneRound acc) (init n false, List.replicate n true)
+  let r := (List.range 3).foldl (fun acc _ => oneRound acc) (init n Gen.Thread.joinUsesFlag, List.replicate n true)
   let c := r.1
   if c.rounds == 3 then s!"ran={ones (r.2.map fun b => if b then 1 else 0)} fin={ones ((List.range n).map fun i => if c.flag i then 1 else 0)}"
   else "model-stuck"
